@@ -46,6 +46,8 @@ impl PoolableConnection<crate::Body> for TestConn {
     }
 }
 type TPool = Pool<TestConn, crate::Body, key::UriKey>;
+/// number of entries really retained (the list's own `len()` is code under test; the field is private to idle.rs)
+fn raw_len(l: &idle::IdleConnections<TestConn, crate::Body>) -> usize { format!("{:?}", l).matches("Idle {").count() }
 
 fn example_key() -> key::UriKey {
     (http::uri::Scheme::HTTPS, http::uri::Authority::from_static("localhost:8080")).into()
@@ -289,4 +291,81 @@ async fn pop_skips_expired() {
     let t = pool.keys.lock().insert(example_key());
     pool.inner.lock().push(t, TestConn::h1(), pool.as_ref());
     assert!(pool.inner.lock().pop(t).is_some(), "zero idle timeout treated as 'expire everything'");
+}
+
+/// push.no_skip with a pool that keeps no idle connections [C14]: a freed connection still reaches a waiting request
+#[tokio::test]
+async fn push_waiter_zero_idle() {
+    for share in [false, true] {
+        let pool: TPool = Pool::new(cfg(0));
+        let t = pool.keys.lock().insert(example_key());
+        let (tx, mut rx) = tokio::sync::oneshot::channel();
+        pool.inner.lock().waiting.entry(t).or_default().push_back(tx);
+        let c = if share { TestConn::h2() } else { TestConn::h1() };
+        let id = c.id();
+        pool.inner.lock().push(t, c, pool.as_ref());
+        let got = rx.try_recv().expect("waiting request did not receive the freed connection (max_idle_per_host = 0)");
+        assert_eq!(got.id(), id);
+        std::mem::forget(got);
+    }
+}
+
+/// idle bound with peer-closed entries in the list [C15]
+#[tokio::test]
+async fn idle_bound_with_closed_entries() {
+    let pool: TPool = Pool::new(cfg(2));
+    let t = pool.keys.lock().insert(example_key());
+    let mut flags = vec![];
+    for _ in 0..2 {
+        let c = TestConn::h1();
+        flags.push(c.open.clone());
+        pool.inner.lock().push(t, c, pool.as_ref());
+    }
+    for f in &flags { f.store(false, std::sync::atomic::Ordering::SeqCst); } // the peer closes the idle connections
+    for _ in 0..3 {
+        pool.inner.lock().push(t, TestConn::h1(), pool.as_ref());
+        let n = pool.inner.lock().idle.get(&t).map(|l| raw_len(l)).unwrap_or(0);
+        assert!(n <= 2, "idle list retains {n} connections for one origin, limit is 2");
+    }
+}
+
+/// burst release [C15]: more exclusive connections released at once than free idle slots
+#[tokio::test]
+async fn idle_bound_burst_release() {
+    let pool: TPool = Pool::new(cfg(1));
+    let t = pool.keys.lock().insert(example_key());
+    let held: Vec<_> = (0..3).map(|_| Pooled { connection: Some(TestConn::h1()), token: t, pool: pool.as_ref() }).collect();
+    drop(held);
+    for _ in 0..10 { tokio::task::yield_now().await; }
+    let n = pool.inner.lock().idle.get(&t).map(|l| raw_len(l)).unwrap_or(0);
+    assert!(n <= 1, "idle list retains {n} connections for one origin, limit is 1");
+}
+
+/// pdrop.excl / wr.ready_only with a queued waiter [C02]: a busy exclusive connection is not handed to the next request
+#[tokio::test]
+async fn exclusive_not_handed_over_while_busy() {
+    let pool: TPool = Pool::new(cfg(5));
+    let t = pool.keys.lock().insert(example_key());
+    let (tx, mut rx) = tokio::sync::oneshot::channel();
+    pool.inner.lock().waiting.entry(t).or_default().push_back(tx);
+    let c = TestConn::h1();
+    c.ready.store(false, std::sync::atomic::Ordering::SeqCst); // previous exchange not finished
+    let ready = c.ready.clone();
+    drop(Pooled { connection: Some(c), token: t, pool: pool.as_ref() });
+    for _ in 0..5 { tokio::task::yield_now().await; }
+    assert!(rx.try_recv().is_err(), "connection handed to a second request before it reported ready again");
+    ready.store(true, std::sync::atomic::Ordering::SeqCst);
+}
+
+/// wrdrop.open with a queued waiter [C02, C05]: a closed/upgraded connection is not handed to a waiting request
+#[tokio::test]
+async fn closed_not_handed_to_waiter() {
+    let pool: TPool = Pool::new(cfg(5));
+    let t = pool.keys.lock().insert(example_key());
+    let (tx, mut rx) = tokio::sync::oneshot::channel();
+    pool.inner.lock().waiting.entry(t).or_default().push_back(tx);
+    let c = TestConn::h1();
+    c.open.store(false, std::sync::atomic::Ordering::SeqCst);
+    drop(WhenReady { connection: Some(c), token: t, pool: pool.as_ref() });
+    assert!(rx.try_recv().is_err(), "closed (or upgraded) connection handed out again");
 }
